@@ -52,6 +52,10 @@ def parse(out):
 
 def main():
     a = sys.argv[1:]
+    if a and a[0] == '--parse':
+        for k, r in parse(open(a[1]).read()).items():
+            print('%-62s %-8s %8s' % (k, r['status'], r['time']))
+        return
     tier, tmo, update, jobs, raw, pats = 'quick', None, False, '8', False, []
     while a:
         x = a.pop(0)
@@ -86,10 +90,11 @@ def main():
     for s in sel:
         cmd += ['--harness', 'h::' + s['harness']]
     t0 = time.time()
-    p = subprocess.run(cmd, cwd=HERE, env=ENV, capture_output=True, text=True)
+    log = os.environ.get('C17_LOG', '/tmp/c17_last_run_%d.log' % os.getpid())
+    with open(log, 'w') as f:          # streamed, so that partial results survive an interrupted run
+        subprocess.run(cmd, cwd=HERE, env=ENV, stdout=f, stderr=subprocess.STDOUT, text=True)
     wall = time.time() - t0
-    out = p.stdout + '\n' + p.stderr
-    open('/tmp/c17_last_run.log', 'w').write(out)
+    out = open(log).read()
     res = parse(out)
     if not res:
         print(out[-6000:])
